@@ -63,6 +63,7 @@ class VSock:
         self.keep_sent = False
         self.send_calls = 0
         self.fail_send_at: Optional[int] = None  # harness-injected write fault at the k-th send
+        self.shut = False  # shutdown() was called on this end
 
     # identity -------------------------------------------------------------------------------
     def __hash__(self):
@@ -192,7 +193,7 @@ class VSock:
             self.err = False
             self.broken = True
             raise ConnectionResetError(errno.ECONNRESET, "Connection reset by peer")
-        if self.broken:
+        if self.broken or self.shut:
             raise BrokenPipeError(errno.EPIPE, "Broken pipe")
         if self.peer == "fin" or (self.peer_sock is not None and self.peer_sock.closed):
             if self.grace <= 0:
@@ -250,12 +251,27 @@ class VSock:
 
     def shutdown(self, how):
         self._chk()
+        # measured on loopback: once a reset has arrived (consumed by recv/send or not, sent spontaneously or in answer to our
+        # write after the peer's close) shutdown() fails with ENOTCONN - a plain OSError, not a ConnectionError
+        if self.peer == "rst" or self.err or self.broken:
+            raise OSError(errno.ENOTCONN, "Transport endpoint is not connected")
+        # our own direction is closed: later sends fail with EPIPE, the peer reads an end of stream
+        self.shut = True
+        p = self.peer_sock
+        if p is not None and p.peer == "open":
+            p.peer = "fin"
 
     def __enter__(self):
         return self
 
     def __exit__(self, *a):
         self.close()
+
+    def __getattr__(self, name):
+        # a socket method the model does not have must never look like a defect of the code under test
+        if name.startswith("_"):
+            raise AttributeError(name)
+        raise HarnessError(f"socket API '{name}' is not modelled by the virtual network (vf.net.VSock)")
 
 
 class VClock:
@@ -551,6 +567,9 @@ def _do(s, op, arg, real):
                 return [s.readable(), True]
             except ValueError:
                 return "ValueError"
+        if op == "shutdown":
+            s.shutdown(_rs.SHUT_RDWR)
+            return "ok"
         if op == "close":
             s.close()
             return "ok"
@@ -592,6 +611,14 @@ SCENARIOS = {
     "no waitall": [("A", "send", b"abc"), ("B", "recvnw", 5), ("A", "send", b"de"), ("A", "close"), ("B", "recvnw", 5), ("B", "recvnw", 5)],
     "idle": [("B", "sel"), ("A", "send", b"a"), ("B", "sel"), ("B", "recv", 1), ("B", "sel")],
     "both close": [("A", "close"), ("B", "close"), ("B", "send", b"x")],
+    "open, shutdown": [("B", "shutdown"), ("B", "send", b"x")],
+    "fin, shutdown": [("A", "close"), ("B", "shutdown")],
+    "rst, shutdown": [("A", "rst"), ("B", "shutdown")],
+    "rst, recv, shutdown": [("A", "rst"), ("B", "recv", 4), ("B", "shutdown")],
+    "rst, send, shutdown": [("A", "rst"), ("B", "send", b"x"), ("B", "shutdown")],
+    "fin, send, shutdown": [("A", "close"), ("B", "send", b"x"), ("B", "shutdown")],
+    "fin, send x2, shutdown": [("A", "close"), ("B", "send", b"x"), ("B", "send", b"y"), ("B", "shutdown")],
+    "local close, shutdown": [("B", "close"), ("B", "shutdown")],
     "data both ways then fin": [("A", "send", b"ab"), ("B", "send", b"cd"), ("A", "recv", 2), ("A", "close"), ("B", "recv", 2), ("B", "recv", 2), ("B", "send", b"e"), ("B", "send", b"f")],
 }
 
